@@ -54,7 +54,7 @@ type wreq struct {
 }
 
 // evs renders an event as one token (panic messages contain spaces).
-func evs(ev coop.Event) string { return strings.ReplaceAll(ev.String(), " ", "_") }
+func evs(ev coop.Event) string { return strings.NewReplacer(" ", "_", ",", "_").Replace(ev.String()) }
 
 func isReady(ch <-chan struct{}) bool {
 	select {
@@ -71,7 +71,8 @@ type wheelRun struct {
 	reqs    []*wreq
 	cur     map[int]*wreq
 	started int
-	closed  int32 // atomic: read by AfterFunc callbacks
+	closed  int32
+	stamp   int32 // atomic, read by AfterFunc callbacks: number of the tick whose close step is running or was the last to complete
 	stepNo  int
 	timers  map[int]*loom.WheelTimer
 }
@@ -100,7 +101,7 @@ func (r *wheelRun) poll(closeStep bool) {
 
 func (r *wheelRun) pendingCallbacks() bool {
 	for _, q := range r.reqs {
-		if q.after && q.returned && atomic.LoadInt32(q.cbCount) == 0 {
+		if q.after && q.returned && q.obs != "panic" && atomic.LoadInt32(q.cbCount) == 0 {
 			return true
 		}
 	}
@@ -111,6 +112,9 @@ func (r *wheelRun) pendingCallbacks() bool {
 func (r *wheelRun) step(tid int) coop.Event {
 	boundary := tid >= 0 && tid < len(r.s.Threads) && r.s.Threads[tid].AtSite == 0
 	closedBefore := int(r.closed)
+	if tid == 0 && !boundary && r.s.Threads[0].AtSite == loom.VerifSiteWheelTickClose {
+		atomic.StoreInt32(&r.stamp, r.closed+1)
+	}
 	ev := r.s.Step(tid)
 	if ev.Kind == coop.KDone || ev.Kind == coop.KBlocked {
 		return ev
@@ -122,7 +126,7 @@ func (r *wheelRun) step(tid int) coop.Event {
 			r.started++
 		}
 		if ev.Kind == coop.KRet {
-			atomic.AddInt32(&r.closed, 1)
+			r.closed++
 			closeStep = true
 		}
 	} else {
@@ -201,7 +205,7 @@ func (r *wheelRun) progs(spec string, ticks int) [][]coop.Op {
 				ops = append(ops, func() string {
 					r.cur[tid] = q
 					r.w.AfterFunc(d, func() {
-						atomic.StoreInt32(q.cbStamp, atomic.LoadInt32(&r.closed))
+						atomic.StoreInt32(q.cbStamp, atomic.LoadInt32(&r.stamp))
 						atomic.AddInt32(q.cbCount, 1)
 					})
 					return "req"
@@ -271,9 +275,10 @@ func init() {
 		tickerDead := len(r.s.Threads) > 0 && !r.s.Enabled(0) && r.started != int(r.closed)
 		if !tickerDead {
 			for k := 0; k < n; k++ {
+				atomic.StoreInt32(&r.stamp, r.closed+1)
 				r.w.VerifTick()
 				r.started++
-				atomic.AddInt32(&r.closed, 1)
+				r.closed++
 				r.stepNo++
 				r.poll(true)
 				for i := 0; i < 200 && r.pendingCallbacks(); i++ {
